@@ -139,8 +139,10 @@ extern void ILL_report (
 #define ILL_FAILfalse(expr, msg)  ILL_FAILtrue(!(expr), msg)
 #define ILL_FAILfalse_no_rval(expr, msg)  ILL_FAILtrue_no_rval(!(expr), msg)
 
+/* reports through the log handler like every other diagnostic (the users
+ * of this macro include logging-private.h) */
 #define ILL_ERROR(rval, msg)      {									\
-									fprintf(stderr, "%s\n", msg);	\
+									QSlog("%s", msg);				\
 									rval = 1; goto CLEANUP;			\
 								  }
 #define ILL_CLEANUP_IF(rval)      { if ((rval) != 0) { goto CLEANUP; } }
